@@ -191,14 +191,21 @@ class SymSeries:
         if attr in ("copy", "to_numpy", "tolist", "to_list"):
             return self
         if attr == "astype":
-            _assume("pandas Series.astype(int|float|'int64'): value preserving on non-null integral values; precondition for int: no nulls")
+            _assume("pandas Series.astype(int|float|'int64'): value preserving on integer-valued columns, truncation toward zero on real-valued ones; precondition for int: no nulls")
             tgt = args[0] if args else kwargs.get("dtype")
             if tgt in (int, "int", "int64", "int32") or (isinstance(tgt, pyvc.Builtin) and tgt.name == "int"):
                 ex.oblige("astype_int_no_null", pc, z3.BoolVal(True), "")
                 if self.col.null is not None:
                     r = self.uni.skolem("astype")
                     ex.oblige("astype_int_requires_non_null", pc + [self.present(r)], z_not(self.col.isnull(r)), "astype(int) raises on NaN")
-                return self._mk(self.col.val, None, "int")
+                sv0 = self.col.val
+
+                def trunc(r):  # a Real-valued element is truncated toward zero, as numpy does; Int-valued ones are unchanged
+                    v = sv0(r)
+                    if z3.is_expr(v) and v.sort() == z3.RealSort():
+                        return z3.If(v >= 0, z3.ToInt(v), -z3.ToInt(-v))
+                    return v
+                return self._mk(trunc, None, "int")
             return self
         if attr == "clip":
             _assume("pandas Series.clip(lower=a, upper=b): element-wise max(a, min(b, x)); NaN stays NaN")
